@@ -243,6 +243,8 @@ func genShape(repo string) (*leanFile, error) {
 	lf.pf("/-- the cases of the final `select` of `NextPackage` -/\n")
 	lf.pf("def nextPackageSelect : List String := [%s]\n", strings.Join(q, ", "))
 	lf.pf("def nextPackageChecksClosedFirst : Bool := %v\n", closedFirst)
+	lf.pf("/-- `NextPackage` holds the channel's read lock for the whole call (RLock, deferred RUnlock): `Close`, which needs the write lock, cannot close the queues under a waiting receiver -/\n")
+	lf.pf("def nextPackageHoldsRLock : Bool := %v\n", holdsRLock(np))
 
 	// Conn.ReadFrom: sends on errCh are selects with ctx.Done()
 	rf := p.funcDecl("Conn", "ReadFrom")
@@ -408,7 +410,6 @@ func genShape(repo string) (*leanFile, error) {
 	}
 	lf.pf("/-- the setup acknowledgement is delivered with the dynamic type NewChannel asserts -/\n")
 	lf.pf("def headerOnlyTypeMatches : Bool := %v\n", hoPtr && asserts)
-
 
 	// which functions of the package mention the receive-side / transmit-side state of a Channel
 	// (fields of the struct type Channel, resolved through the type checker): the duplex model
